@@ -202,6 +202,32 @@ def check(repo):
     r1.require(n_cont >= 14, schemes[0].method("_Enc"), "containers floor", "only %d containers analysed (expected >= 14)" % n_cont)
     # Pi2Lev's array is sized before it is filled: a slot that is reserved but never written stays None (an entry of another "length"),
     # a slot that is written but not reserved is missing.  The agreement of reservation and case split is R1.3's; its findings count here.
+    # a level table that is not padded because a level loop stops one short, and hidden state that carries one database's bucket
+    # occupancy into the next set-up, change the shape: the rules that establish them (R1.4 level coverage, R7.2 no hidden state) count here
+    r7 = Rule("R5.7", "every level table is padded (level loops cover t + 1 levels); set-up keeps nothing from an earlier database")
+    rules.append(r7)
+    from . import c01 as _c01b, c07 as _c07
+    tmp4 = Rule("R1.4", "")
+    _c01b._check_capacity(repo, tmp4, [s_ for s_ in schemes if s_.name in ("CT14.Pi", "ANSS16.Scheme3")])
+    r7.obligations += tmp4.obligations
+    r7.discharged += tmp4.discharged
+    for f in tmp4.findings:
+        if "covers t+1 levels" in f.construct:
+            f.rule = "R5.7"
+            r7.findings.append(f)
+        else:
+            r7.discharged += 1
+    for rr in _c07.check(repo):
+        if rr.id == "R7.2":
+            r7.obligations += rr.obligations
+            r7.discharged += rr.discharged
+            for f in rr.findings:
+                if f.file.startswith("schemes/") and "construction" in f.file:
+                    f.rule = "R5.7"
+                    f.message = "set-up carries state from one database to the next, so the second index's shape depends on the first (%s)" % f.message
+                    r7.findings.append(f)
+                else:
+                    r7.discharged += 1
     r6 = Rule("R5.6", "Pi2Lev reserves exactly the array slots that the medium / large cases fill")
     rules.append(r6)
     from . import c01 as _c01
@@ -244,11 +270,50 @@ def _check_fill_counts(repo, r2, s, enc, ft, dbp, filler_nodes):
             it = ft.term(it_expr, nid)
             dep = _db_content_dependent(it, dbp)
             desc = {"scheme": s.name, what: short(it_expr), "line": n.line}
+            if not dep and s.name in ("CT14.Pi", "ANSS16.Scheme3") and _uses_unpadded_total(it):
+                r2.fail_fn(enc, st, "fill count uses the unpadded total size",
+                           "%s: the number of filler entries produced by the %s over %s is computed from the real total size N, which the scheme does not reveal (only "
+                           "ceil(log2 N) is public): the count has to come from the padded size - the variable the database-padding loop advances to 2^t" % (
+                               s.name, what, short(it_expr)), witness=desc)
+                continue
             if dep:
                 r2.fail_fn(enc, st, "fill count depends on the data",
                            "%s: the number of filler entries produced by the %s over %s depends on keywords or individual list lengths" % (s.name, what, short(it_expr)), witness=desc)
             else:
                 r2.ok(desc)
+
+
+def _uses_unpadded_total(t):
+    """get_total_size(database) occurs in the term outside log2(...) while nothing in the term is carried by a loop (the padded size
+    is what the `while N < 2 ** t` loop leaves in its variable, so its term contains a loop-carried `rec` node)."""
+    def recs(x, depth=0):
+        if not isinstance(x, (tuple, frozenset)) or depth > 60:
+            return False
+        if isinstance(x, frozenset):
+            return any(recs(y, depth + 1) for y in x)
+        if not x:
+            return False
+        if isinstance(x[0], str) and x[0] == "rec":
+            return True
+        if isinstance(x[0], str) and x[0] == "cont":
+            return False
+        return any(recs(y, depth + 1) for y in x if isinstance(y, (tuple, frozenset)))
+    has_rec = recs(t)
+
+    def plain(x, under_log=False, depth=0):
+        if not isinstance(x, (tuple, frozenset)) or depth > 60:
+            return False
+        if isinstance(x, frozenset):
+            return any(plain(y, under_log, depth + 1) for y in x)
+        if not x:
+            return False
+        if isinstance(x[0], str) and x[0] == "call" and isinstance(x[1], str) and x[1].endswith("::get_total_size"):
+            return not under_log
+        ul = under_log or (isinstance(x[0], str) and x[0] == "call" and x[1] in ("math.log2", "math.log"))
+        if isinstance(x[0], str) and x[0] == "cont":
+            return False      # sizes of local containers are judged at their own fill sites
+        return any(plain(y, ul, depth + 1) for y in x if isinstance(y, (tuple, frozenset)))
+    return plain(t) and not has_rec
 
 
 def _bounded_by_container(it):
